@@ -4,6 +4,7 @@ import (
 	"encoding/json"
 	"fmt"
 	"go/ast"
+	"go/types"
 	"os"
 	"os/exec"
 	"path/filepath"
@@ -36,6 +37,8 @@ func main() {
 		cmdSweep(os.Args[2:])
 	case "machine":
 		cmdMachine(os.Args[2:])
+	case "gen-params":
+		cmdGenParams()
 	case "terms":
 		cmdTerms(os.Args[2:])
 	case "check":
@@ -521,4 +524,37 @@ func cmdMachine(args []string) {
 		}
 		return false
 	})
+}
+
+// cmdGenParams prints the parameter names of the indicator Compute methods and the helper
+// functions of the tree as a Go table (developer aid: the frozen table rules.pinnedParams).
+func cmdGenParams() {
+	p, err := load.Load("/repo", false)
+	if err != nil {
+		fmt.Fprintln(os.Stderr, err)
+		os.Exit(2)
+	}
+	var lines []string
+	for fn, fi := range p.Decls {
+		rel := load.RelPkg(fi.Pkg.PkgPath)
+		key := ""
+		switch {
+		case fi.Decl.Recv != nil && fn.Name() == "Compute" && (rel == "trend" || rel == "momentum" || rel == "volatility" || rel == "volume"):
+			key = strings.TrimSuffix(strings.Replace(load.FuncName(fn), ".(*", ".", 1), ").Compute")
+		case fi.Decl.Recv == nil && rel == "helper" && fn.Exported():
+			key = "helper." + fn.Name()
+		default:
+			continue
+		}
+		sig := fn.Type().(*types.Signature)
+		var names []string
+		for i := 0; i < sig.Params().Len(); i++ {
+			names = append(names, fmt.Sprintf("%q", sig.Params().At(i).Name()))
+		}
+		lines = append(lines, fmt.Sprintf("\t%q: {%s},", key, strings.Join(names, ", ")))
+	}
+	sort.Strings(lines)
+	fmt.Println("package rules\n\n// pinnedParams: the parameter names of the pinned source, by position. The frozen tables (formula\n// specifications, range claims, helper models, roles) are written with these names; a parameter\n// that was renamed is found by its position.\nvar pinnedParams = map[string][]string{")
+	fmt.Println(strings.Join(lines, "\n"))
+	fmt.Println("}")
 }
